@@ -868,5 +868,89 @@ mod verif_deflate_core {
         kani::cover!(flags & TDEFL_RLE_MATCHES != 0 && NS_RECORDED.load(RLX) > NS_TOKENS.load(RLX), "COV:normal.rle_match");
     }
 
+    // ------------------------------------------------------------------
+    // K-faststep : the real compress_fast on a few bytes with a flush requested. Dictionary reads
+    // (read_unaligned_u32/u64) are replaced by nondeterministic models (any window content), LZOxide::write_code
+    // by a logging model, flush_block by a no-op model. Token-level clauses of C10/C11 and the drain clause of C12.
+    // ------------------------------------------------------------------
+    static FS_LOG: [core::sync::atomic::AtomicU8; 24] = [Z8; 24];
+    static FS_N: AU = AU::new(0);
+    fn model_read_u32(this: &DictOxide, pos: usize) -> u32 { kani::any() }
+    /// pairs of reads (p then q) always differ somewhere in their 8 bytes: the 32-iteration compare loop then exits
+    /// in its first iteration (bounded stand-in: candidate matches of length 3..=10 before clamping to the lookahead)
+    static FS_LAST: core::sync::atomic::AtomicU64 = core::sync::atomic::AtomicU64::new(0);
+    static FS_TOGGLE: AU = AU::new(0);
+    fn model_read_u64(this: &DictOxide, pos: usize) -> u64 {
+        let v: u64 = kani::any();
+        if FS_TOGGLE.fetch_add(1, RLX) % 2 == 0 { FS_LAST.store(v, RLX); } else { kani::assume(v != FS_LAST.load(RLX)); }
+        v
+    }
+    fn model_write_code(this: &mut LZOxide, val: u8) {
+        let n = FS_N.fetch_add(1, RLX);
+        assert!(n < 24, "OBL:fast.at_most_three_code_bytes_per_input_byte [C02]");
+        FS_LOG[n].store(val, RLX);
+        this.code_position += 1;
+    }
+
+    #[kani::proof]
+    #[kani::unwind(7)]
+    #[kani::stub(DictOxide::read_unaligned_u32, model_read_u32)]
+    #[kani::stub(DictOxide::read_unaligned_u64, model_read_u64)]
+    #[kani::stub(LZOxide::write_code, model_write_code)]
+    #[kani::stub(flush_block, model_flush_block_noop)]
+    fn k_fast_step() {
+        let mut d = any_compressor!();
+        let flags = d.params.flags;
+        kani::assume(flags & TDEFL_FORCE_ALL_RAW_BLOCKS == 0);
+        let cap = 1usize << core::cmp::max(d.params.window_bits_max, 8);
+        let pos0: usize = 40000;
+        let size0: usize = kani::any();
+        kani::assume(size0 <= LZ_DICT_SIZE);
+        d.dict.lookahead_size = 0;
+        d.dict.lookahead_pos = pos0;
+        d.dict.size = size0;
+        d.params.flush = any_flush();
+        kani::assume(d.params.flush != TDEFLFlush::None);
+        d.params.src_pos = 0;
+        // any hash-table content: the probed entry is what decides the candidate distance
+        let hidx: usize = kani::any();
+        kani::assume(hidx < 4096);
+        d.dict.b.hash[hidx] = kani::any();
+        const N: usize = 5;
+        let inb: [u8; N] = kani::any();
+        let mut outb = [0u8; 8];
+        let ok;
+        {
+            let mut cb = CallbackOxide::new_callback_buf(&inb[..], &mut outb[..]);
+            ok = compress_fast(&mut d, &mut cb);
+        }
+        assert!(ok && d.params.src_pos == N, "OBL:fast.consumes_all_offered_input [C02]");
+        assert!(d.dict.lookahead_size == 0, "OBL:fast.flush_request_drains_lookahead_completely [C12 C02]");
+        assert!(d.dict.lookahead_pos == pos0 + N && d.lz.total_bytes as usize == N, "OBL:fast.every_byte_covered_by_exactly_one_token [C01 C02]");
+        // parse the token log: flag bits (LSB first, as compress_lz_codes reads them) + code bytes
+        let ntok = 8 - d.lz.num_flags_left as usize;
+        assert!(ntok >= 1 && ntok <= N, "OBL:fast.token_count [C02]");
+        let flagbyte = d.lz.codes[0] >> d.lz.num_flags_left;
+        let mut i = 0usize; let mut covered = 0usize; let mut t = 0;
+        while t < N {
+            if t < ntok {
+                if (flagbyte >> t) & 1 == 1 {
+                    let len = FS_LOG[i].load(RLX) as usize + 3;
+                    let dist = (FS_LOG[i + 1].load(RLX) as usize | (FS_LOG[i + 2].load(RLX) as usize) << 8) + 1;
+                    i += 3;
+                    assert!(len >= 3 && len <= 258 && covered + len <= N, "OBL:fast.match_length_3_to_258_and_inside_the_input [C10 C01]");
+                    assert!(dist >= 1 && dist <= size0 + covered, "OBL:fast.match_never_reaches_before_start_of_data [C10]");
+                    assert!(dist <= cap, "OBL:fast.match_distance_within_declared_window [C11]");
+                    assert!(!(len == 3 && dist >= 8 * 1024), "OBL:fast.no_far_minimum_length_match [C10]");
+                    covered += len;
+                } else { i += 1; covered += 1; }
+            }
+            t += 1;
+        }
+        assert!(covered == N && i == FS_N.load(RLX), "OBL:fast.tokens_cover_the_input_exactly [C01 C02]");
+        kani::cover!(ntok < N, "COV:fast.some_match");
+        kani::cover!(ntok == N, "COV:fast.all_literals");
+    }
+
     //@PLAYBACK@
 }
